@@ -88,6 +88,58 @@ def readGS (j : Json) : R (GS Rat) := do
   pure { n := n, N := fun i k => (N.getD i #[]).getD k 0, M := fun i k => (M.getD i #[]).getD k 0,
          mean := fun i => mua.getD i 0 }
 
+/-- measurement covariance: explicit `sigma`, or `eps` (homodyne), or the identity (heterodyne) -/
+def pickSigma (j : Json) : R (Mat Rat) := do
+  match j.getObjVal? "sigma" with
+  | .ok m => pure (matOf (← asRatMat m))
+  | .error _ =>
+    match j.getObjVal? "eps" with
+    | .ok e =>
+      let eps ← asRat e
+      if eps == 0 then throw "eps = 0" else pure (homodyneCov eps)
+    | .error _ => pure heterodyneCov
+
+def getPair (j : Json) (k : String) : R (Rat × Rat) := do
+  let v ← getVec j k
+  pure (v.getD 0 0, v.getD 1 0)
+
+/-- outcome vector: `vm` explicit | `het` (Gaussian circuit/back end scaling) | `hetBackend` / `hetCircuit`
+(bosonic) | `homSelect = [s, t, select]` with second entry `vc[1] + vm1off` (Gaussian) or `0` (bosonic) |
+`vmoff` (sampled outcome = mean handed to the generator + offset) -/
+def pickVm (j : Json) (rngMean : Vec Rat) (k : Nat) (bosonic : Bool) : R (Vec Rat) := do
+  match j.getObjVal? "vm" with
+  | .ok v => pure (vecOf (← asRatVec v))
+  | .error _ =>
+  match getPair j "het" with
+  | .ok (re, im) => let p := gaussHetVm re im; pure fun a => if a = 0 then p.1 else p.2
+  | .error _ =>
+  match getPair j "hetBackend" with
+  | .ok (re, im) => let p := bosonicHetVm re im; pure fun a => if a = 0 then p.1 else p.2
+  | .error _ =>
+  match getPair j "hetCircuit" with
+  | .ok (re, im) => let p := bosonicCircuitHetVals re im; pure fun a => if a = 0 then p.1 else p.2
+  | .error _ =>
+  match getVec j "homSelect" with
+  | .ok v =>
+    let s := v.getD 0 1
+    let t := v.getD 1 1
+    if s == 0 || t == 0 then throw "zero scale"
+    let x := homodyneSelectToCircuit s t (v.getD 2 0)
+    let off := (getRat j "vm1off").toOption.getD 0
+    pure fun a => if a = 0 then x else if bosonic then 0 else rngMean 1 + off
+  | .error _ =>
+    let off ← getVec j "vmoff"
+    pure fun a => if a < k then rngMean a + off.getD a 0 else 0
+
+/-- the values reported to the caller for outcome `vm` -/
+def reported (j : Json) (vm : Vec Rat) : List (String × Json) :=
+  let st := match getVec j "scale" with
+    | .ok v => (v.getD 0 1, v.getD 1 1)
+    | .error _ => (1, 1)
+  let h := gaussHetReturned half (vm 0) (vm 1)
+  [("vm", jvec 2 vm), ("homReturned", jrat (homodyneReturned st.1 st.2 (vm 0))),
+   ("hetReturned", jarr [jrat h.1, jrat h.2])]
+
 /-- Gaussian `measure_dyne` / `post_select_*` on modes `modes` with measurement covariance `sigma`
 and outcome `vm`; returns the new `(nmat, mmat, mean)` and the arguments handed to the generator -/
 def gaussPost (j : Json) : R Json := do
@@ -98,40 +150,40 @@ def gaussPost (j : Json) : R Json := do
   for o in pre do
     st := memo (← gaussStep st o)
   let modes ← getNatList j "modes"
-  let sigma := matOf (← getMat j "sigma")
-  let vm := vecOf (← getVec j "vm")
+  let sigma ← pickSigma j
   let k := 2 * modes.length
   let rng := gaussRngArgs st modes sigma
   let S := memoM k k rng.cov
+  let rmean := vecOf ((Array.range k).map rng.mean)
+  let vm ← pickVm j rmean k false
   let W ← pickW j k S
   let st' := memo (gaussPostSelect half st modes W vm)
   let idx := List.range st.n
   let mat (f : Nat → Nat → Cx Rat) := jarr (idx.map fun i => jarr (idx.map fun l => jCx (f i l)))
-  pure <| Json.mkObj [("N", mat st'.N), ("M", mat st'.M), ("mean", jarr (idx.map fun i => jCx (st'.mean i))),
-    ("rngMean", jvec k rng.mean), ("rngCov", jmat k k S),
-    ("scov", jmat (2 * st.n) (2 * st.n) (scov st')), ("smean", jvec (2 * st.n) (smean st'))]
+  pure <| Json.mkObj ([("N", mat st'.N), ("M", mat st'.M), ("mean", jarr (idx.map fun i => jCx (st'.mean i))),
+    ("rngMean", jvec k rmean), ("rngCov", jmat k k S)] ++ reported j vm)
 
-/-- bosonic `post_select_generaldyne` on a list of components -/
+/-- bosonic `post_select_generaldyne` on a list of components (one measured mode: explicit inverse) -/
 def bosonicPost (j : Json) : R Json := do
   let covs ← (← getArr j "covs").mapM asRatMat
   let means ← (← getArr j "means").mapM asRatVec
   let modes ← getNatList j "modes"
-  let sigma := matOf (← getMat j "sigma")
-  let vm := vecOf (← getVec j "vm")
+  let sigma ← pickSigma j
   let del := expind modes
   let k := del.length
   let comps := covs.zip means
+  let vm0 ← pickVm j (fun _ => 0) k true
   let out ← comps.mapM fun (V, r) => do
     let tot := V.size
     let S := memoM k k (addM (chopC (matOf V) del) sigma)
-    -- per-component inverse: only the explicit 2×2 one or a common `Ws` list
     let W ← if k = 2 then
         (if S 0 0 * S 1 1 - S 0 1 * S 1 0 == 0 then throw "singular" else pure (memoM 2 2 (inv2 S)))
       else throw "use meas.bosonicPostW for several modes"
-    let o := bosonicDyneComp tot del (matOf V) (vecOf r) W vm
+    let o := bosonicDyneComp tot del (matOf V) (vecOf r) W vm0
     pure <| Json.mkObj [("cov", jmat tot tot o.cov), ("mean", jvec tot o.mean),
-      ("quad", jrat (bosonicQuad del (vecOf r) W vm)), ("S", jmat k k S)]
-  pure (jarr out)
+      ("quad", jrat (bosonicQuad del (vecOf r) W vm0)), ("S", jmat k k S)]
+  let tot := (covs.head?.map (·.size)).getD 0
+  pure <| Json.mkObj ([("comps", jarr out), ("allMeasured", Json.bool (bosonicAllMeasured tot modes))] ++ reported j vm0)
 
 /-- the same with the inverses supplied (several measured modes); each `W` is checked -/
 def bosonicPostW (j : Json) : R Json := do
@@ -152,7 +204,8 @@ def bosonicPostW (j : Json) : R Json := do
     let o := bosonicDyneComp tot del (matOf V) (vecOf r) W vm
     pure <| Json.mkObj [("cov", jmat tot tot o.cov), ("mean", jvec tot o.mean),
       ("quad", jrat (bosonicQuad del (vecOf r) W vm)), ("S", jmat k k S)]
-  pure (jarr out)
+  let tot := (covs.head?.map (·.size)).getD 0
+  pure <| Json.mkObj [("comps", jarr out), ("allMeasured", Json.bool (bosonicAllMeasured tot modes))]
 
 def scal (j : Json) : R Json := do
   let kind ← getStr j "kind"
